@@ -4,6 +4,7 @@ Spec: ContentCheck.tla.  The same document-level operations are executed under t
 multi-process writer (procs, batch size, merged / multisegment), BufferedWriter, AsyncWriter};
 every configuration's canonical dump is judged by TLC against the same abstract documents.
 A BufferedWriter's own searcher must show committed + buffered documents."""
+import json
 import random
 
 from harness import cworld, world, content
@@ -403,6 +404,60 @@ def check(run):
     rejects = content.judge(run, cases)
     content.report(run, "c18", cases, rejects)
     run.extra["configurations"] = len(cases)
+    frontend_design(run, quick)
+
+
+def frontend_design(run, quick):
+    """WriterFrontends.tla: the BufferedWriter under two threads as a design model (TLC: every interleaving of
+    add / update / commit / search / close at the granularity of the object's lock and of the wrapped writer's
+    commit), and spec -> code: behaviours exported by WriterFrontendsGen.tla are imposed on a real BufferedWriter
+    (threads held at the lock and at two storage operations of the commit) and the real object is compared with
+    the specified state after every step (harness/frontends.py)."""
+    from harness import tlc, frontends
+    res = tlc.run_tlc("WriterFrontends", "WriterFrontendsMC.cfg", timeout=1200)
+    run.add_tlc("WriterFrontendsMC", res)
+    if res.violation:
+        raise tlc.TLCError("WriterFrontends.tla (the code as it is): %s\n%s" % (res.violation, tlc.tail(res.stdout, 30)))
+    # the configuration that releases the lock after the snapshot (the code as it was) must show each race:
+    # the model is able to express them (non-vacuity of the four invariants)
+    found = {}
+    for inv in ("NoRaceError", "NothingLost", "SearchBounds", "QuiescentView"):
+        r = tlc.run_tlc("WriterFrontends", "WriterFrontendsMC_unlocked_%s.cfg" % inv, timeout=600, check=False)
+        found[inv] = r.violation
+        if r.violation != "invariant " + inv:
+            run.machinery("vacuity: WriterFrontends.tla without the lock held across commit does not violate %s (%r)"
+                          % (inv, r.violation))
+    run.extra["races_found_by_TLC_in_the_unlocked_configuration"] = found
+    gen = tlc.run_tlc("WriterFrontendsGen", "WriterFrontendsGen.cfg", simulate=15 if quick else 400, depth=80,
+                      seed=run.seed + 18, workers=8)
+    run.add_tlc("WriterFrontendsGen", gen)
+    behs = gen.tagged.get("BEH", [])
+    if len(behs) < 20:
+        run.machinery("WriterFrontendsGen exported only %d behaviours" % len(behs))
+    results = frontends.replay_all(behs)
+    blocked = parked = 0
+    for beh, r in zip(behs, results):
+        run.count(len(beh))
+        run.traces += 1
+        if r and "machinery" in r:
+            run.machinery("BufferedWriter replay: " + r["machinery"])
+            continue
+        waits = sum(1 for e in beh if e["a"] == "Call" and e["st"]["mutex"] not in ("none", e["t"]))
+        blocked += waits
+        parked += sum(1 for e in beh if e["a"] == "Com2")
+        if r:
+            run.violation({"check": "c18-bufferedwriter-replay", "action": r["action"], "call": r["call"],
+                           "fields": r["fields"]},
+                          {"behaviour": beh, "step": r["step"], "problem": r["problem"]})
+        elif waits:
+            run.nontriv(("bw-replay", json.dumps(beh, sort_keys=True)))
+    run.extra["bufferedwriter_replay"] = {"behaviours": len(behs), "steps": sum(len(b) for b in behs),
+                                          "calls_made_while_the_other_thread_commits": blocked,
+                                          "commits_held_at_the_TOC_write": parked}
+    if behs:
+        run.sample({"bufferedwriter_behaviour": [[e["t"], e["a"], e["op"], e["k"], e["id"]] for e in behs[0]]})
+    if not blocked:
+        run.machinery("vacuity: no replayed behaviour has a call made while the other thread commits")
 
 
 def replay(run, rp):
